@@ -110,6 +110,19 @@ def bytes_repr(b):
     return mkstr(out)
 
 
+def str_repr(x):
+    """repr(str) for symbolic text restricted to printable ASCII without quotes/backslash (anything else: outside the model)"""
+    for c in x.els:
+        ok = _conj([_rng(c, 32, 126), _neg_(_eqb(c, 39)), _neg_(_eqb(c, 34)), _neg_(_eqb(c, 92))])
+        if not _dec(ok):
+            raise ZXError('repr() of symbolic text with quotes/backslash/non-printable characters is outside the model')
+    return mkstr([39] + list(x.els) + [39])
+
+
+def _neg_(b):
+    return (not b) if isinstance(b, bool) else z3.Not(b)
+
+
 def _eqb(e, v):
     return (e == v) if isinstance(e, int) else (e == v)
 
@@ -121,6 +134,10 @@ def _wrapb(b):
 def z_repr(x):
     if isinstance(x, SBytes):
         return bytes_repr(x)
+    if isinstance(x, (SInt, SBool)):
+        return int_to_str(x)
+    if isinstance(x, SStr):
+        return str_repr(x)
     if isinstance(x, PROXY_TYPES):
         raise ZXError('repr() of symbolic value')
     if isinstance(x, (list, tuple, dict)) and _deep_sym(x):
@@ -189,6 +206,12 @@ def zx_mod(fmt, args):
         if isinstance(v, PROXY_TYPES) or (_user_str(v) is not None and conv == 's'):
             if conv == 's':
                 t = z_str(v)
+            elif conv == 'r' and isinstance(v, (SInt, SBool)):
+                t = int_to_str(v)
+            elif conv == 'r' and isinstance(v, SStr):
+                t = str_repr(v)
+            elif conv == 'r' and isinstance(v, SBytes):
+                t = bytes_repr(v)
             elif conv in 'diu':
                 if isinstance(v, (SStr, SBytes)):
                     raise TypeError('%%%s format: a real number is required, not str' % conv)
